@@ -505,6 +505,20 @@ def main():
         spec = json.loads(sys.argv[2])
         print(json.dumps(search(spec)))
         return 0
+    if cmd == "sweep":
+        # several (method, role) instances of one class: first failing case wins
+        spec = json.loads(sys.argv[2])
+        total = 0
+        for meth in spec["methods"]:
+            for role in spec.get("roles", ["root"]):
+                r = search(dict(spec, method=meth, role=role))
+                total += r.get("cases", 0)
+                if r.get("found") or r.get("error"):
+                    r["cases"] = total
+                    print(json.dumps(r))
+                    return 0
+        print(json.dumps({"found": False, "cases": total}))
+        return 0
     if cmd == "run":
         sc = json.load(open(sys.argv[2]))
         sc = sc.get("scenario", sc)
